@@ -8,6 +8,11 @@ R25d  a file is yielded/returned only after the extension test and both the
       outer and the inner ignore test (must-guard)
 R25e  ignore files found while walking are loaded through the loader table and
       appended to the inner spec list under the ``ignore_files`` switch only
+R25f  directory containment is decided on whole path components: no
+      ``os.path.commonprefix`` (character-wise) on paths, and a ``startswith``
+      between two paths has a separator-terminated prefix
+R25g  nothing in discovery is memoised on a caller-spelled path (the key would
+      depend on the spelling and on the working directory at the time of the call)
 """
 
 from __future__ import annotations
@@ -144,6 +149,44 @@ def run(chk) -> None:
     chk.count("R25a.functions_analysed", len(interp.memo))
     chk.floor("R25a.kinded_comparison_sites", 2)
     chk.floor("R25a.functions_analysed", 6)
+
+    # ---- R25f: component-aware containment ---------------------------------
+    chk.rule("R25f", "directory containment is decided on whole path components (no character-wise prefix tests between paths)")
+    for m in (disc, hfile):
+        for q, f in m.functions():
+            for c in calls_in(f):
+                if call_name(c) in ("os.path.commonprefix", "commonprefix"):
+                    chk.fail("R25f", c, "os.path.commonprefix compares character by character: 'a/mart' is a prefix of 'a/mart_v2', so an ignore file of one "
+                             "directory stays active in a sibling whose name merely starts with the same characters", detail="commonprefix on paths")
+    seen_sw = set()
+    for node, l, r in interp.sites:
+        if isinstance(node, ast.Call) and last_attr(node) == "startswith" and id(node) not in seen_sw and is_known(l) and is_known(r):
+            seen_sw.add(id(node))
+            arg = node.args[0] if node.args else None
+            sep_ok = (
+                isinstance(arg, ast.BinOp) and isinstance(arg.op, ast.Add)
+                and (norm(arg.right) in ("os.sep", "os.path.sep") or (isinstance(arg.right, ast.Constant) and arg.right.value in ("/", "\\")))
+            ) or (isinstance(arg, ast.Call) and call_name(arg) == "os.path.join" and arg.args and isinstance(arg.args[-1], ast.Constant) and arg.args[-1].value == "")
+            chk.require(sep_ok, "R25f", node, "prefix test between two paths without a trailing separator on the prefix: sibling directories sharing a name prefix are confused",
+                        detail="startswith prefix separator-terminated")
+    chk.count("R25f.path_startswith_sites", len(seen_sw))
+
+    # ---- R25g: no memoisation on caller-spelled paths ------------------------
+    chk.rule("R25g", "no function of file discovery that receives a caller-spelled path is memoised (lru_cache/cache)")
+    CACHE_DECOS = ("cache", "lru_cache", "functools.cache", "functools.lru_cache", "cached", "memoize")
+    for (fname, argkinds), _res in interp.memo.items():
+        fnode = functions.get(fname)
+        if fnode is None:
+            continue
+        decos = [norm(d.func) if isinstance(d, ast.Call) else norm(d) for d in fnode.decorator_list]
+        cached = [d for d in decos if d in CACHE_DECOS or d.split(".")[-1] in ("cache", "lru_cache")]
+        chk.count("R25g.functions_checked")
+        if cached and any(k == GIVEN for k in argkinds):
+            chk.fail("R25g", fnode, f"{fname} is memoised ({cached[0]}) but is called with a path in the caller's spelling: the cache key depends on how the path was "
+                     "spelled and on the working directory of an earlier call, so a relative spelling can select different files than the absolute one",
+                     detail=f"memoised on caller-spelled path: {fname}")
+        else:
+            chk.ok("R25g", f"{DISC}::{fname}", "not memoised on a caller-spelled path")
 
     # ---- R25b -----------------------------------------------------------
     for rel in (DISC, "src/sqlfluff/core/linter/linter.py", "src/sqlfluff/core/config/loader.py"):
@@ -353,6 +396,24 @@ def _r25d(chk, repo) -> None:
 from ..selftest import Variant  # noqa: E402
 
 VARIANTS = [
+    Variant(
+        "containment-by-commonprefix", DISC,
+        "                or os.path.abspath(dirname).startswith(\n                    os.path.abspath(inner_dirname) + os.sep\n                )\n",
+        "                or os.path.commonprefix([os.path.abspath(dirname), os.path.abspath(inner_dirname)])\n                == os.path.abspath(inner_dirname)\n",
+        "R25f", "_iter_files_in_path", "seeded C25-1",
+    ),
+    Variant(
+        "containment-prefix-without-separator", DISC,
+        "                    os.path.abspath(inner_dirname) + os.sep\n",
+        "                    os.path.abspath(inner_dirname)\n",
+        "R25f", "_iter_files_in_path",
+    ),
+    Variant(
+        "ignorefile-loader-memoised", DISC,
+        "def _load_ignorefile(dirpath: str, filename: str) -> IgnoreSpecRecord:",
+        "@__import__('functools').lru_cache(maxsize=None)\ndef _load_ignorefile(dirpath: str, filename: str) -> IgnoreSpecRecord:",
+        "R25g", "_load_ignorefile", "seeded C25-2",
+    ),
     Variant(
         "abs-prefix-vs-walk-dirname", DISC,
         "                or os.path.abspath(dirname).startswith(\n",
